@@ -231,6 +231,8 @@ def build():
     #   10 convert_entry(base16)  11 convert_entry(base64)
     #   12 while scanner.continues() { Rtype::scan } (RtypeBitmap::scan)
     #   13 convert_token(Nsec3Salt converter)  14 convert_token(OwnerHash base32 converter)
+    #   15 while scanner.continues() { scan_svcb_octets } (SvcParams::scan)
+    # IPSECKEY has one row per arm of IpseckeyGateway::scan.
     # Types whose scan is not a straight line of these (loops, convert_token,
     # custom converters, SVCB) are listed in type_scans_unresolved.
     import glob
@@ -345,20 +347,99 @@ def build():
     rsrc = strip_comments(read("src/base/iana/rtype.rs"))
     for (_, v, mn) in re.findall(r"\(\s*([A-Za-z0-9_]+)\s*=>\s*(0x[0-9A-Fa-f]+|\d+)\s*,\s*\"([^\"]+)\"\s*\)", rsrc):
         rnum[mn.replace("-", "")] = num(v)
+    def ipseckey_alts():
+        """Ipseckey::scan: three u8, the gateway (one Scanner call per arm of
+        IpseckeyGateway::scan's match on the gateway type), the Base 64 key."""
+        body = find_scan_body("Ipseckey")
+        if body is None:
+            return None
+        if not re.search(r"u8::scan\(scanner\)\?;.*?u8::scan\(scanner\)\?\.into\(\);.*?u8::scan\(scanner\)\?\.into\(\);\s*"
+                         r"let\s+gateway\s*=\s*IpseckeyGateway::scan\(scanner,\s*gateway_type\)\?;\s*"
+                         r"let\s+key\s*=\s*scanner\.convert_entry\(base64::SymbolConverter::new\(\)\)\?;", body, re.S):
+            return None
+        if len(re.findall(r"::scan\s*\(", body)) != 4 or len(re.findall(r"\bscanner\s*\.\s*\w+\s*\(", body)) != 1:
+            return None
+        gsrc = None
+        for txt in files.values():
+            mm = re.search(r"pub\s+fn\s+scan<S:\s*Scanner<Name\s*=\s*N>>\(\s*scanner:\s*&mut\s+S,\s*gateway_type:\s*IpseckeyGatewayType,", txt)
+            if mm:
+                gsrc = txt[mm.start():]
+                gsrc = block_from(gsrc, gsrc.index("{", gsrc.index("Result<Self")))
+        if gsrc is None:
+            return None
+        mm = re.search(r"Ok\(match\s+gateway_type\s*\{", gsrc)
+        if not mm:
+            return None
+        arms_txt = block_from(gsrc, mm.end() - 1)
+        arms = re.split(r"IpseckeyGatewayType::\w+\s*=>|\b_\s*=>", arms_txt)[1:]
+        alts = []
+        for arm in arms:
+            toks = TOK.findall(arm)
+            n_calls = len(re.findall(r"::scan\s*\(", arm)) + len(re.findall(r"\bscanner\s*\.\s*\w+\s*\(", arm))
+            if n_calls == 0:
+                if "return Err" not in arm:
+                    return None
+                continue
+            if n_calls != 1 or len(toks) != 1:
+                return None
+            sq = seq_of(arm)
+            if sq is None or len(sq) != 1:
+                return None
+            alts.append([5, 5, 5] + sq + [11])
+        return alts if len(alts) == 4 else None
+
+    def svcb_seq(variant):
+        """SvcbRdata<Variant>::scan: u16, scan_name, SvcParams::scan (a loop of
+        scan_svcb_octets while the entry continues)."""
+        src = files.get(os.path.join(REPO, "src/rdata/svcb/rdata.rs"))
+        psrc2 = files.get(os.path.join(REPO, "src/rdata/svcb/params.rs"))
+        vsrc = files.get(os.path.join(REPO, "src/rdata/svcb/value.rs"))
+        if src is None or psrc2 is None or vsrc is None:
+            return None
+        mm = re.search(r"impl<[^{]*?>\s*SvcbRdata<%s,\s*Octs,\s*Name>\s*\{\s*pub\s+fn\s+scan" % variant, src)
+        if not mm:
+            return None
+        body = fn_body(src[mm.start():], "scan")
+        if not re.search(r"let\s+priority\s*=\s*u16::scan\(scanner\)\?;\s*let\s+target\s*=\s*scanner\.scan_name\(\)\?;"
+                         r".*?let\s+params\s*=\s*SvcParams::scan\(scanner\)\?;", body, re.S):
+            return None
+        if len(re.findall(r"::scan\s*\(", body)) != 2 or len(re.findall(r"\bscanner\s*\.\s*\w+\s*\(", body)) != 1:
+            return None
+        pm = re.search(r"impl<[^{]*>\s*SvcParams<Octs>\s*\{\s*pub\s+fn\s+scan", psrc2)
+        if not pm:
+            return None
+        pbody = fn_body(psrc2[pm.start():], "scan")
+        calls = re.findall(r"\bscanner\s*\.\s*(\w+)\s*\(", pbody)
+        if sorted(calls) != ["continues", "octets_builder", "scan_svcb_octets"]:
+            return None
+        if not re.search(r"while\s+scanner\.continues\(\)\s*\{.*?let\s+octs\s*=\s*scanner\.scan_svcb_octets\(\)\?;", pbody, re.S):
+            return None
+        # the value parsers get the scanner only for an octets builder
+        if [c for c in re.findall(r"\bscanner\s*\.\s*(\w+)\s*\(", vsrc) if c != "octets_builder"]:
+            return None
+        return [6, 1, 15]
+
     resolved, unresolved = [], []
     for v in variants:
         key = v.upper()
         if key not in rnum:
             continue  # pseudo types without zone-file mnemonic
         if v in name_types:
-            seq = [1]
+            seqs = [[1]]
+        elif v == "Ipseckey":
+            seqs = ipseckey_alts()
+        elif v in ("Svcb", "Https"):
+            sq = svcb_seq(v + "Variant")
+            seqs = [sq] if sq is not None else None
         else:
             body = find_scan_body(v)
-            seq = seq_of(body) if body is not None else None
-        if seq is None:
+            sq = seq_of(body) if body is not None else None
+            seqs = [sq] if sq is not None else None
+        if seqs is None:
             unresolved.append(rnum[key])
         else:
-            resolved.append((rnum[key], seq))
+            for sq in seqs:
+                resolved.append((rnum[key], sq))
     if len(resolved) < 20:
         raise GenError("only %d record types resolved to scan sequences" % len(resolved))
     defs.append(("type_scans", "list (N * list N)",
